@@ -109,6 +109,9 @@ pub open spec fn claims_key(ns: Seq<char>, a: Seq<char>) -> Seq<u8> { path(ns, u
 pub open spec fn claims_of(s: Raw, ns: Seq<char>, a: Seq<char>) -> Seq<Claim> {
     if s.contains_key(claims_key(ns, a)) { match de_claims(s[claims_key(ns, a)]) { Some(c) => c, None => Seq::<Claim>::empty() } } else { Seq::<Claim>::empty() }
 }
+pub open spec fn claims_readable(s: Raw, ns: Seq<char>, a: Seq<char>) -> bool {
+    !s.contains_key(claims_key(ns, a)) || de_claims(s[claims_key(ns, a)]) is Some
+}
 pub open spec fn claims_total(c: Seq<Claim>) -> nat decreases c.len() {
     if c.len() == 0 { 0 } else { claims_total(c.drop_last()) + c.last().amount@ }
 }
@@ -134,6 +137,8 @@ impl Claims {
         ensures r is Ok ==> r->Ok_0@ == matured_total(claims_of(old(storage).view(), self.ns@, addr@), block)
             && final(storage).view() == old(storage).view().insert(claims_key(self.ns@, addr@),
                 ser_claims(waiting(claims_of(old(storage).view(), self.ns@, addr@), block))),
+            // `Map::update` with an infallible action: only a stored value that does not parse makes it fail
+            claims_readable(old(storage).view(), self.ns@, addr@) ==> r is Ok,
     { unimplemented!() }
     #[verifier::external_body]
     pub fn query_claims(&self, deps: Deps, address: &Addr) -> (r: StdResult<ClaimsResponse>)
